@@ -3,12 +3,17 @@ SPEC = {
     "level": "fault_enumeration",
     "level_text": "For each generated transmission (5-9 page transmissions with headers, rows, X/26, X/27/0, X/28/0, 8/30, time filling "
                   "headers; serial or parallel multiplex; erase and no-erase retransmissions; every third one with a page with a hexadecimal "
-                  "number that is received while its function is unknown, declared a normal page by a MIP, and received again) every packet is hit, one fault per run into a "
+                  "number that is received while its function is unknown, declared a normal page by a MIP, and received again; every fourth one with TOP: Basic TOP "
+                  "Table 1F0, an Additional Information Table and mostly a Multi-Page Table, the tables before or behind the BTT that names them; every "
+                  "fourth one with a Magazine Organization Table and an object page (pointer table + object definition triplets) whose object is displayed "
+                  "on a normal page at Level 2.5 as default object, through an X/26 invocation and the MOT link, or through an X/26 invocation and X/27/4; "
+                  "everywhere M/29/0 or M/29/4, X/28/4, X/28/1, 8/30 format 2) every packet is hit, one fault per run into a "
                   "fresh decoder, by: every single-bit fault of every Hamming 8/4 byte and 24/18 triplet (exhaustive), every single-bit fault "
                   "of every parity protected text byte (exhaustive), all 28 double faults of every address/control byte, sampled double "
                   "faults in header control bytes and data bytes/triplets, sampled bursts (<= 2 errors per byte) and the loss of the packet. "
                   "The observable state (cached page keys, every cached page formatted at Level 1.0/1.5/2.5 with navigation, classification "
-                  "of all page numbers, all events) is compared with reference runs of the same transmission on the same code: fault-free, "
+                  "of all page numbers, the TOP index page 900 and vbi_page_title() of the listed pages, all events including the programme "
+                  "identification of 8/30 format 2) is compared with reference runs of the same transmission on the same code: fault-free, "
                   "without the packet, with subsets of the pages in progress abandoned. Exhaustive over the single faults of the generated "
                   "transmissions only; transmissions themselves are sampled.",
     "level_note": "Trusted: the transmitter in harness/c02_ttx.h (encoders cross-checked against the library's decoders in the self-test), "
@@ -23,6 +28,9 @@ SPEC = {
         "rule (b): a cell of a row hit by a parity error shows the fault-free character, the earlier good character or (only if no good row was received before) a blank; everything outside that row equals the fault-free run or the run without the packet",
         "uncorrectable header: the final state equals a run in which some subset of the transmissions in progress at that moment is replaced by time filling headers",
         "header text (row 0) carries alpha colour codes only",
+        "uncorrectable header while a BTT, MPT or MOT is in progress: the rows of the table received before the header stay in force (the decoder applies them as they arrive), the rows behind it are lost and the table page itself may or may not be in the cache",
+        "the title characters of an Additional Information Table entry are not a text row of a page: faults there are judged by the page number clause only",
+        "byte 2 of an object page packet (Hamming 8/4, tells pointer table from object data) counts as address/control byte like the designation code of X/26-X/28",
     ],
     "jobs": [
         {"name": "plain", "harness": "c02_ttx_faithful", "srcs": ["harness/c02_ttx_faithful.c"], "flavour": "plain",
@@ -34,5 +42,13 @@ SPEC = {
     "min_counters": {"faults_single_hamming": 20000, "faults_single_parity": 40000, "faults_double": 5000, "faults_burst": 500,
                      "faults_dropped_packet": 200, "headers_uncorrectable": 50, "packets_header": 20, "packets_row": 100,
                      "packets_x26": 5, "packets_x27": 5, "packets_x28": 2, "packets_830": 2, "packets_mip": 2, "transmissions_with_hex_page_and_mip": 2, "row-kept-earlier-content": 500,
-                     "row-stayed-blank": 500},
+                     "row-stayed-blank": 500,
+                     # session 6: system pages and the other enhancement / service packets
+                     "packets_btt": 6, "packets_ait": 3, "packets_mpt": 2, "packets_mot": 6, "packets_pop": 8,
+                     "packets_m29-0": 2, "packets_m29-4": 2, "packets_x28-4": 3, "packets_x28-1": 2, "packets_x27-4": 1, "packets_830f2": 4,
+                     "transmissions_with_top_tables": 3, "page_numbers_classified_differently_because_of_btt": 50,
+                     "transmissions_with_top_navigation_row": 2, "transmissions_with_top_index_page": 3, "page_titles_from_ait": 3,
+                     "transmissions_with_mot_and_object_page": 3, "transmissions_with_object_displayed_at_level_2p5": 2,
+                     "transmissions_with_default_object_from_mot": 1, "transmissions_with_x26_invocation_through_mot": 1,
+                     "transmissions_with_x26_invocation_through_x27_4": 1},
 }
